@@ -152,6 +152,15 @@ struct Run {
                 else if (o == "addbp") { BlockParameters bp = vr::bp_in(op["bp"]); ret = exp->add_block_parameters(bp); }
                 else if (o == "setbp") ret = exp->set_active_block_parameters(static_cast<index_t>(op["i"].get<uint64_t>())) ? 1 : 0;
                 else if (o == "counts") ret = 0;
+                else if (o == "wbx") {
+                    // a block the application builds directly with the raw add_* API and hands to write_block(block)
+                    index_t bpi = static_cast<index_t>(op["bpi"].get<uint64_t>());
+                    BlockParameters bp = vr::bp_in(op["bp"]);
+                    CdnsBlock blk(bp, bpi);
+                    vr::raw_block_fill(blk, op);
+                    ev["items"] = blk.get_item_count();
+                    ret = exp->write_block(blk);
+                }
                 else { fprintf(stderr, "unknown op %s\n", o.c_str()); _exit(3); }
             } catch (std::exception& e) {
                 ev["exc"] = std::string(e.what()).substr(0, 200);
